@@ -309,7 +309,7 @@ def func_adl_parameterized_call(
 
 
 def _fill_in_default_arguments(
-    func: Callable, call: ast.Call, fill_in_defaults: bool = True
+    func: Callable, call: ast.Call, fill_in_defaults: bool = True, has_receiver: bool = False
 ) -> Tuple[ast.Call, Type]:
     """Given a call and the function definition:
 
@@ -324,6 +324,8 @@ def _fill_in_default_arguments(
     Args:
         func (Callable): The function definition
         call (ast.Call): The ast call site to be modified
+        has_receiver (bool): `func` is a plain method taken from its class: its first
+            parameter is the object the method is called on (however it is spelled).
 
     Raises:
         ValueError: Missing arguments, etc.
@@ -342,10 +344,11 @@ def _fill_in_default_arguments(
     i_arg = 0
     arg_array = list(call.args)
     keywords = list(call.keywords)
-    for param in sig.parameters.values():
+    for i_param, param in enumerate(sig.parameters.values()):
+        is_receiver = (i_param == 0) if has_receiver else (param.name == "self")
         # The stream operators (Select, Where, ...) keep exactly what the user wrote - their
         # extra parameters are for internal use only.
-        if param.name != "self" and fill_in_defaults:
+        if not is_receiver and fill_in_defaults:
             if len(arg_array) <= i_arg:
                 # See if they specified it as a keyword
                 a, keywords = _find_keyword(keywords, param.name)
@@ -665,6 +668,9 @@ def remap_by_types(
                     base_obj.method,
                     r_node,
                     fill_in_defaults=base_obj.method_class is not ObjectStream,
+                    has_receiver=inspect.isfunction(
+                        inspect.getattr_static(base_obj.method_class, m_name, None)
+                    ),
                 )
                 return_annotation = resolve_type_vars(
                     return_annotation_raw, base_obj.obj_type, at_class=base_obj.method_class
